@@ -85,6 +85,55 @@ func ruleR41(c *Ctx) {
 				}
 			}
 		}
+		// size classes that keep their slots in key order (addChild places a child at the position an
+		// insert-position search returns) must close the gap by shifting: moving another child of
+		// the same node into the freed slot breaks the order every traversal relies on
+		sorted := false
+		if au := m.ByName[k.Struct.Obj().Name()+".addChild"]; au != nil {
+			ast.Inspect(au.Body, func(x ast.Node) bool {
+				if call, ok := x.(*ast.CallExpr); ok && strings.HasPrefix(m.calleeName(call), "insertPos") {
+					sorted = true
+				}
+				return true
+			})
+		}
+		if sorted && u.Decl != nil && u.Decl.Recv != nil && len(u.Decl.Recv.List) == 1 && len(u.Decl.Recv.List[0].Names) == 1 {
+			recv := info.Defs[u.Decl.Recv.List[0].Names[0]]
+			moved := false
+			ast.Inspect(u.Body, func(x ast.Node) bool {
+				as, ok := x.(*ast.AssignStmt)
+				if !ok || as.Tok == token.DEFINE || len(as.Lhs) != len(as.Rhs) {
+					return true
+				}
+				for i, l := range as.Lhs {
+					ie, isIdx := ast.Unparen(l).(*ast.IndexExpr)
+					if !isIdx {
+						continue
+					}
+					sel, isSel := ast.Unparen(ie.X).(*ast.SelectorExpr)
+					if !isSel || (sel.Sel.Name != "children" && sel.Sel.Name != "keys") || info.ObjectOf(identOf(sel.X)) != recv {
+						continue
+					}
+					// reads a slot of the same node?
+					reads := false
+					ast.Inspect(as.Rhs[i], func(z ast.Node) bool {
+						if rs, ok := z.(*ast.SelectorExpr); ok && (rs.Sel.Name == "children" || rs.Sel.Name == "keys") && info.ObjectOf(identOf(rs.X)) == recv {
+							reads = true
+						}
+						return true
+					})
+					if reads {
+						moved = true
+						c.r.bad("R41", k.Struct.Obj().Name()+".deleteChild closes the gap by shifting", m.pos(as.Pos()),
+							"a slot of this node is overwritten with another slot of the same node: the children of this size class are kept in key order (insert position search), and moving one into the freed slot puts it out of order for All/Backward/Range and for later inserts", props...)
+					}
+				}
+				return true
+			})
+			if !moved {
+				c.r.ok("R41", k.Struct.Obj().Name()+".deleteChild closes the gap by shifting", m.pos(u.Decl.Pos()), "no slot-to-slot move inside the node", props...)
+			}
+		}
 		if !bad {
 			c.r.ok("R41", k.Struct.Obj().Name()+".deleteChild vacates the slot on every path that decrements the fan-out", m.pos(u.Decl.Pos()), "every path with childrenLen-- also compacts or empties the slot", props...)
 		}
@@ -135,4 +184,13 @@ func exprText(e ast.Expr) string {
 	}
 	w(e)
 	return b.String()
+}
+
+
+func identOf(e ast.Expr) *ast.Ident {
+	id, _ := ast.Unparen(e).(*ast.Ident)
+	if id == nil {
+		return &ast.Ident{Name: "?"}
+	}
+	return id
 }
